@@ -276,6 +276,15 @@ func init() {
 			if tier == "c06" { // C06: every net/rpc Dispense reaches the server object created for it
 				return []explore.Params{{"mix": "dispense3:netrpc"}, {"mix": "nextid-mux"}, {"mix": "route-dispense:netrpc"}, {"mix": "dispense-fail:netrpc"}}
 			}
+			if tier == "fine" { // the same mixes with a scheduling point at every function entry of go-plugin
+				out := []explore.Params{{"mix": "nextid-mux", "fine": "1"}, {"mix": "nextid-grpc", "fine": "1"}}
+				for _, proto := range []string{"netrpc", "grpc", "grpcmux"} {
+					for _, k := range []string{"dispense3", "dispense-kill", "call-kill", "broker-kill", "accessors-kill"} {
+						out = append(out, explore.Params{"mix": k + ":" + proto, "fine": "1"})
+					}
+				}
+				return out
+			}
 			out := []explore.Params{{"mix": "nextid-mux"}, {"mix": "nextid-grpc"}}
 			for _, proto := range []string{"netrpc", "grpc", "grpcmux"} {
 				for _, k := range []string{"dispense3", "dispense-kill", "call-kill", "broker-kill", "accessors-kill"} {
